@@ -706,10 +706,11 @@ fn check_bundle(case: &BundleCase) -> Result<Option<(usize, usize)>, String> {
     // the amount itself, where nothing is hoisted (no type declaration in any file): the files are laid
     // out one after the other, each taking the lines it has (line breaks + 1), so the code of a file
     // moves by the lines of the files placed before it. (With hoisted type declarations the count
-    // is as intricate as the code under test and is not attempted.) A module always keeps the
-    // marker of its `return`, so a file without markers in the bundle is not part of it.
+    // is as intricate as the code under test and is not attempted.) Only when every file of the
+    // project still has a marker in the bundle: a file without one is either not part of the bundle
+    // or lost its marked code to a rule (filter_after_early_return ...), which cannot be told apart.
     let mut amount_checked = false;
-    if case.files.iter().all(|(_, t)| !may_declare_type(t)) {
+    if deltas.len() == case.files.len() && case.files.iter().all(|(_, t)| !may_declare_type(t)) {
         let mut per_file: Vec<(i64, usize)> = vec![];
         for (fi, per_marker) in &deltas {
             let mut c: Vec<i64> = per_marker.values().next().cloned().unwrap_or_default();
